@@ -5,7 +5,7 @@ from gen_l1 import ev, op
 
 
 def x(e, **kw):
-    d = {"pdr": 0, "action": 0, "n": 0, "base": 0, "period": 0, "kreps": []}
+    d = {"pdr": 0, "action": 0, "n": 0, "base": 0, "period": 0, "kreps": [], "exp": []}
     d.update(kw)
     e.update(d)
     return e
@@ -126,6 +126,31 @@ def buffering(seed, n, length=14):
     return out
 
 
+def bulk_periodic(g, rng, sid):
+    P, Q = 10, 20
+    nsess = rng.randint(19, 40)
+    for k in range(nsess):
+        urrs = [(u, P if rng.random() < 0.8 else Q) for u in range(1, rng.randint(2, 4) + 1)]
+        g.est(node=rng.choice(["n1", "n2"]), urrs=tuple(urrs))
+    g.events.append(tick(P))
+    live = sorted(g.alive)
+    for s in rng.sample(live, min(len(live), rng.randint(3, 12))):
+        c = rng.random()
+        if c < 0.5:
+            u = rng.choice(sorted(g.alive[s]["urrs"]) or [1])
+            g.add(ev("mod", peer="p1", seq=g.nseq(), sref=s, ops=[op("remove", "urr", u)]))
+            g.alive[s]["urrs"].pop(u, None)
+        else:
+            g.delete(s)
+    g.events.append(tick(P))
+    g.events.append(tick(Q))
+    if rng.random() < 0.5:
+        g.assoc(rng.choice(["n1", "n2"]))
+        g.alive = {k: v for k, v in g.alive.items() if v["node"] != g.events[-1]["node"]}
+        g.events.append(tick(P))
+    return g.script(sid)
+
+
 def periodic(seed, n, length=16):
     """C15 / C10 at the full stack: periodic registrations over sessions and periods, ticks, kernel reports"""
     out = []
@@ -135,6 +160,11 @@ def periodic(seed, n, length=16):
         g.assoc("n1")
         g.assoc("n2")
         periods = [10, 20, 30]
+        if i % 6 == 5:
+            # more registered URRs than one multi-report query can carry (the kernel answers at most 56 per request): the
+            # tick has to be split into batches, every URR still queried once and each session served once
+            out.append(bulk_periodic(g, rng, "per-%d-%d" % (seed, i)))
+            continue
         for _ in range(length):
             c = rng.random()
             live = sorted(g.alive)
